@@ -372,6 +372,35 @@ def units(w):
     # (the allocation contracts of the root frame, shared with C10)
     from . import c10
     U.extend([u for u in c10.units(w) if u.name in ("functions.py::Environment.__init__", "functions.py::get_base_environment")])
+
+    # the base frame of an environment is the root of its *current* parent chain - also for an environment that was created on its
+    # own and attached later (Interpreter.interpret does that with a caller-supplied environment, and detaches it afterwards): the
+    # secure flag is read from there, never from a frame the program can write
+    def b_chain(it, c):
+        funcs_ = w.import_module("ckl.functions").ns
+        E = funcs_["Environment"]
+        mk_env = lambda *a: it.call(E, list(a))
+        base = mk_env()
+        session = mk_env(base)
+        own = mk_env()                       # created standalone
+        child = it.call(w.func("functions.py::Environment.newEnv"), [own])
+        c["before"] = (it.call(w.func("functions.py::Environment.getBase"), [own]), it.call(w.func("functions.py::Environment.getBase"), [child]))
+        it.call(w.func("functions.py::Environment.withParent"), [own, session])
+        c["attached"] = (it.call(w.func("functions.py::Environment.getBase"), [own]), it.call(w.func("functions.py::Environment.getBase"), [child]),
+                         it.call(w.func("functions.py::Environment.getBase"), [session]))
+        it.call(w.func("functions.py::Environment.withParent"), [own, None])
+        c["detached"] = (it.call(w.func("functions.py::Environment.getBase"), [own]), it.call(w.func("functions.py::Environment.getBase"), [child]))
+        c["objs"] = (base, session, own, child)
+        return Outcome("return", None)
+
+    def p_chain(it, c, o):
+        base, session, own, child = c["objs"]
+        it.check("post:a-standalone-environment-is-its-own-base", c["before"][0] is own and c["before"][1] is own)
+        it.check("post:once-attached-its-base-(and that of its children)-is-the-root-of-the-chain-it-was-attached-to",
+                 c["attached"][0] is base and c["attached"][1] is base and c["attached"][2] is base)
+        it.check("post:detached-again-it-is-its-own-base", c["detached"][0] is own and c["detached"][1] is own)
+    U.append(Unit("functions.py::Environment.getBase", lambda it: ([], {}, {}), p_chain, name="functions.py::Environment.getBase[attached and detached with withParent]",
+                  body=b_chain, allowed=(), replay=replay_binder))
     return U
 
 
@@ -498,6 +527,38 @@ def bounded(tier, seed):
                 ok, obs = False, repr(e)
             if not ok:
                 fails.append({"id": "bounded:secure-flag-cannot-be-switched-off", "input": src, "observed": obs, "expected": "an error (built-in stays undefined)"})
+        # programs run by the host in a caller-supplied environment (Interpreter.interpret(script, file, environment)): the same
+        # attempts there, and a function value that outlives such a run
+        import tempfile
+        import shutil
+        scratch = tempfile.mkdtemp(prefix="c09dir", dir=os.environ.get("VERIF_SCRATCH", "/var/tmp"))
+        try:
+            for src in ["def checkerlang_secure_mode = FALSE; bind_native('list_dir'); list_dir('%s')" % scratch,
+                        "for checkerlang_secure_mode in [FALSE] do bind_native('list_dir') end; list_dir('%s')" % scratch]:
+                ev += 1
+                try:
+                    r = I.interpret(src, "-", functions_mod.Environment())
+                    ok, obs = False, "value " + str(r)
+                except (errors.CklRuntimeError, errors.CklSyntaxError):
+                    ok, obs = True, "refused"
+                if not ok:
+                    fails.append({"id": "bounded:secure-flag-cannot-be-switched-off[in a caller-supplied environment]", "input": src, "observed": obs, "expected": "an error"})
+            ev += 1
+            K_ = interp.Interpreter(True, legacy)
+            K_.interpret("def holder = [];", "a")
+            K_.interpret("def checkerlang_secure_mode = FALSE; def bn = bind_native; def f() do bn('list_dir'); list_dir('%s') end; append(holder, f); 1" % scratch,
+                         "b", functions_mod.Environment())
+            try:
+                r = K_.interpret("holder[0]()", "c")
+                ok, obs = False, "value " + str(r)
+            except (errors.CklRuntimeError, errors.CklSyntaxError):
+                ok, obs = True, "refused"
+            if not ok:
+                fails.append({"id": "bounded:secure-flag-cannot-be-switched-off[function value that outlives a run in a caller-supplied environment]",
+                              "input": "interpret('def holder = []'); interpret(\"def checkerlang_secure_mode = FALSE; def bn = bind_native; def f() do bn('list_dir'); list_dir(dir) end; "
+                                       "append(holder, f)\", environment=Environment()); interpret('holder[0]()')", "observed": obs, "expected": "an error (list_dir stays undefined)"})
+        finally:
+            shutil.rmtree(scratch, ignore_errors=True)
         flag = I.base_environment.map["checkerlang_secure_mode"]
         if str(flag) != "TRUE":
             fails.append({"id": "bounded:base-flag-still-on", "input": "after all attempts", "observed": str(flag), "expected": "TRUE"})
